@@ -403,6 +403,14 @@ func TestC01Network(t *testing.T) {
 				id, what = o, name
 			}
 		}
+		if c.Chance("case.foreign-keypair", 1, 8) {
+			// The address of the valid identity under the complete key pair of
+			// another router (what a forger who owns a key can present and sign).
+			o := ids.Group("na")[4]
+			id = valid
+			id.pub, id.priv = append([]byte(nil), o.Addr.PublicKey...), append([]byte(nil), o.Addr.PrivateKey...)
+			what = "key-pair-of-another-router"
+		}
 		pred := c01Predicate(id)
 		mustAccept := pred && id.wellFormedEd25519()
 		if !id.ip.IsValid() {
@@ -425,13 +433,16 @@ func TestC01Network(t *testing.T) {
 		// identity under test arrives. (Pings and hop records of known routers do
 		// not carry an identity that is looked at: first contact only.)
 		knownFirst := false
-		if entry == "peering-request" && id.ip == valid.ip && c.Bool("known-first") {
+		// The same goes for a hop record that names a known router under another
+		// key and is signed with that key (with the genuine key the record is the
+		// router's own word, whatever else it says about the identity).
+		if (entry == "peering-request" || entry == "hop-record" && what == "key-pair-of-another-router") && id.ip == valid.ip && c.Bool("known-first") {
 			pa := valid.public()
 			if err := V.St.AddRouter(&pa); err != nil {
 				c.Fatalf("add genuine router: %v", err)
 			}
 			knownFirst = true
-			c.Class("peering-request-from-known-router")
+			c.Class(entry + "-from-known-router")
 		}
 		c.Note("%s via %s: %s predicate=%v known-first=%v", what, entry, id, pred, knownFirst)
 		alerts := mgr.NewAlertMgr(V.Peer.Manager())
